@@ -1010,6 +1010,14 @@ func child(c *vf.Ctx) {
 		childPlain(c, start, count)
 	case "race":
 		childRace(c, start, count)
+	case "tiny":
+		childTiny(c, start, count, false)
+	case "tinyrace":
+		childTiny(c, start, count, true)
+	case "shared":
+		childShared(c, start, count, false)
+	case "sharedrace":
+		childShared(c, start, count, true)
 	}
 }
 
@@ -1126,6 +1134,12 @@ func runExtraChildren(c *vf.Ctx, name string, total, nChildren int, race bool, s
 		if len(f) == 2 && f[0] == "atom" {
 			return map[string]any{"atomplan": atomPlanFor(c, atoi(f[1])), "fatal": "crash"}
 		}
+		if len(f) == 2 && f[0] == "tiny" {
+			return map[string]any{"tinyplan": tinyPlanFor(c, atoi(f[1])), "fatal": "crash"}
+		}
+		if len(f) == 2 && f[0] == "shared" {
+			return map[string]any{"sharedplan": sharedPlanFor(c, atoi(f[1])), "fatal": "crash"}
+		}
 		if len(f) == 2 {
 			return map[string]any{"bulk": bulkPlanFor(c, atoi(f[1])), "fatal": "crash"}
 		}
@@ -1160,12 +1174,14 @@ func replay(c *vf.Ctx) {
 	var top struct {
 		Seed   int64 `json:"seed"`
 		Replay struct {
-			Report   string    `json:"report"`
-			Bulk     *BulkPlan `json:"bulk"`
-			Atom     *AtomPlan `json:"atomplan"`
-			Deadlock bool      `json:"deadlock"`
-			Plan     *Plan     `json:"plan"`
-			History  []Rec     `json:"history"`
+			Report   string      `json:"report"`
+			Bulk     *BulkPlan   `json:"bulk"`
+			Atom     *AtomPlan   `json:"atomplan"`
+			Tiny     *TinyPlan   `json:"tinyplan"`
+			Shared   *SharedPlan `json:"sharedplan"`
+			Deadlock bool        `json:"deadlock"`
+			Plan     *Plan       `json:"plan"`
+			History  []Rec       `json:"history"`
 		} `json:"replay"`
 	}
 	if err := json.Unmarshal(raw, &top); err != nil {
@@ -1176,6 +1192,10 @@ func replay(c *vf.Ctx) {
 	switch {
 	case rp.Atom != nil:
 		replayAtom(c, *rp.Atom)
+	case rp.Tiny != nil:
+		replayTiny(c, *rp.Tiny)
+	case rp.Shared != nil:
+		replayShared(c, *rp.Shared)
 	case rp.Bulk != nil:
 		replayBulk(c, *rp.Bulk)
 	case rp.Report != "":
@@ -1183,6 +1203,8 @@ func replay(c *vf.Ctx) {
 		runRaceChildren(c, c.Pick(3000, 60000), 2, top.Seed)
 		runBulkChildren(c, c.Pick(24, 300), 1, true, top.Seed)
 		runExtraChildren(c, "atomrace", c.Pick(16, 160), 1, true, top.Seed)
+		runExtraChildren(c, "tinyrace", c.Pick(8, 80), 1, true, top.Seed)
+		runExtraChildren(c, "sharedrace", c.Pick(2000, 40000), 1, true, top.Seed)
 	case len(rp.History) > 0:
 		// 1. the recorded history is decided again (deterministic)
 		v := checkHistory(rp.History)
@@ -1223,7 +1245,7 @@ func run(c *vf.Ctx) {
 		replay(c)
 		return
 	}
-	c.SetRule("one history = 2-16 goroutines released by a spin barrier, 4-12 operations each (<= 128 recorded operations) on 1-3 views (realms \"\", a, ab; plain / flushkv / debug wrapped) of one mapdb store, keys {\"\",a,b,ab}, every Set value unique, seeded Gosched jitter, GOMAXPROCS cycling through 2/4/16; call/return ticks from one atomic counter; a committed batch is one operation per written key with the Commit window. evaluations = recorded operations handed to porcupine. overlapping_pairs = pairs of operations of different goroutines whose [call,return] windows intersect; distinct_nontrivial = distinct observed schedules (hash of the tick-ordered operation list) in which at least one such pair contains a mutation. Second family (no porcupine): large-operation rounds – one goroutine commits batches of 1/100/511/512/513/2000 mutations, DeletePrefix/Clear over 1000 keys and iterates over up to 2600 entries through its own views while 4 single-writer streams (1200 Set/Delete/Get each, unique values, own keys inside and outside the ranges the large operations touch) and 2 readers work through other view objects; every Get, every iterated entry or absence and the final state is judged per key: the value must come from a mutation invoked before the observation returned and not followed by another mutation of that key that completed before the observation began; unknown keys must not appear. Third family (no porcupine; linearizability of a multi-key operation as ONE operation – the statement: every operation takes effect at one instant): (1) a fully populated key family of 1/100/1023/1024/1025/2048/5000/20000 entries is removed by exactly one DeletePrefix/Clear while 5 readers iterate (Iterate/IterateKeys, both directions) through the mutating view object, sibling, parent and nested views: every iteration reports all or none of the family; (2) an Iterate whose consumer the harness parks after j entries while one writer applies a known sequence of Sets/Deletes through the same/sibling/parent/nested view and returns must deliver the content at one point S0..Sn of that sequence; (3) free-running iterations with a slow consumer against a numbered writer sequence must deliver some Si with completed-at-call <= i <= started-at-return")
+	c.SetRule("one history = 2-16 goroutines released by a spin barrier, 4-12 operations each (<= 128 recorded operations) on 1-3 views (realms \"\", a, ab; plain / flushkv / debug wrapped) of one mapdb store, keys {\"\",a,b,ab}, every Set value unique, seeded Gosched jitter, GOMAXPROCS cycling through 2/4/16; call/return ticks from one atomic counter; a committed batch is one operation per written key with the Commit window. evaluations = recorded operations handed to porcupine. overlapping_pairs = pairs of operations of different goroutines whose [call,return] windows intersect; distinct_nontrivial = distinct observed schedules (hash of the tick-ordered operation list) in which at least one such pair contains a mutation. Second family (no porcupine): large-operation rounds – one goroutine commits batches of 1/100/511/512/513/2000 mutations, DeletePrefix/Clear over 1000 keys and iterates over up to 2600 entries through its own views while 4 single-writer streams (1200 Set/Delete/Get each, unique values, own keys inside and outside the ranges the large operations touch) and 2 readers work through other view objects; every Get, every iterated entry or absence and the final state is judged per key: the value must come from a mutation invoked before the observation returned and not followed by another mutation of that key that completed before the observation began; unknown keys must not appear. Third family (no porcupine; linearizability of a multi-key operation as ONE operation – the statement: every operation takes effect at one instant): (1) a fully populated key family of 1/100/1023/1024/1025/2048/5000/20000 entries is removed by exactly one DeletePrefix/Clear while 5 readers iterate (Iterate/IterateKeys, both directions) through the mutating view object, sibling, parent and nested views: every iteration reports all or none of the family; (2) an Iterate whose consumer the harness parks after j entries while one writer applies a known sequence of Sets/Deletes through the same/sibling/parent/nested view and returns must deliver the content at one point S0..Sn of that sequence; (3) free-running iterations with a slow consumer against a numbered writer sequence must deliver some Si with completed-at-call <= i <= started-at-return. Fourth family (no porcupine; small-store rounds): the round starts on an empty (0-2 entries) store; one goroutine builds and commits batches of 8/64/512/4096/16384 writes one after the other through its own view and mostly wipes the batch keys again (DeletePrefix / Clear of a nested view) between two commits; 1-2 parties keep 0..3 keys of their own alive (Set new key / Delete it) and 1-2 parties keep 0..3 batch keys deleted (Delete a key the batches write, preferably one their last iteration reported / Set it again), each through its own (plain / flushkv / debug, root or nested) view object, starting each step while a Commit is in flight (bounded spin); right after each of its own completed mutations a party observes (Get / Has / Iterate / IterateKeys over the key, its 10-neighbourhood, the key family or the whole realm, both directions); every observation is judged per key with the rule of the second family, the not-reported keys of the range and empty results included. Fifth family (no porcupine; shared batch handles, wrappers, slow backend): 2-4 goroutines share 1-2 batch handles of ONE view that is mapdb or a flushkv/debug stack over a harness backend which yields in every method and parks one call (before or after Flush, the backend batch's Commit/Set/Delete, Set, Delete, Get) until the other goroutines have completed 1-3 more steps (bounded spin); steps: Set/Delete on a handle (each key belongs to one handle and one goroutine), Commit of a handle, Set/Delete/Get/Flush through the shared view; a reader Gets through a plain view; finally the harness commits every handle once more. Per batch key with mutations m1..mn: a Commit C writes an index in [last mutation returned before C was invoked, last mutation invoked before C returned]; an observation of index i is admissible iff such a C invoked before the observation returned covers i and no commit whose lower bound exceeds i lies entirely between C and the observation; after the closing commit every key holds its last mutation")
 	nPlain := c.Pick(20000, 500000)
 	nRace := c.Pick(3000, 60000)
 	var wg sync.WaitGroup
@@ -1238,6 +1260,14 @@ func run(c *vf.Ctx) {
 	wg.Add(2)
 	go func() { defer wg.Done(); runExtraChildren(c, "atom", nAtom, c.Pick(2, 4), false, c.Seed) }()
 	go func() { defer wg.Done(); runExtraChildren(c, "atomrace", nAtomRace, c.Pick(1, 2), true, c.Seed) }()
+	nTiny, nTinyRace := c.Pick(48, 1000), c.Pick(8, 80)
+	wg.Add(2)
+	go func() { defer wg.Done(); runExtraChildren(c, "tiny", nTiny, c.Pick(2, 4), false, c.Seed) }()
+	go func() { defer wg.Done(); runExtraChildren(c, "tinyrace", nTinyRace, 1, true, c.Seed) }()
+	nShared, nSharedRace := c.Pick(12000, 300000), c.Pick(2000, 40000)
+	wg.Add(2)
+	go func() { defer wg.Done(); runExtraChildren(c, "shared", nShared, c.Pick(2, 4), false, c.Seed) }()
+	go func() { defer wg.Done(); runExtraChildren(c, "sharedrace", nSharedRace, 1, true, c.Seed) }()
 	wg.Wait()
 	c.Require("atom_family_rounds", nAtom*4/10)
 	c.Require("atom_gated_snapshot_checks", nAtom/8)
@@ -1248,6 +1278,32 @@ func run(c *vf.Ctx) {
 	c.Require("atom_race_family_rounds", nAtomRace*4/10)
 	for _, s := range famSizesQuick {
 		c.Require("atom_family_rounds_of_size_"+strconv.Itoa(s), nAtom/20)
+	}
+	// minimums that depend on real overlap scale with the cores the run may use
+	scaled := func(n int) int {
+		k := runtime.NumCPU()
+		if k > 4 {
+			k = 4
+		}
+		if n = n * k / 4; n < 1 {
+			n = 1
+		}
+		return n
+	}
+	c.Require("tiny_rounds", nTiny*9/10)
+	c.Require("tiny_race_rounds", nTinyRace*9/10)
+	// (only what the harness drives is demanded: how many operations fit INSIDE a Commit window depends on
+	// the library's lock granularity, so those counters are evidence, not minimums)
+	c.Require("tiny_party_operations_overlapping_a_commit", scaled(nTiny*5))
+	c.Require("tiny_iterations_reporting_nothing", nTiny*10)
+	c.Require("tiny_iterations_reporting_entries", nTiny*10)
+	c.Require("shared_rounds", nShared*9/10)
+	c.Require("shared_race_rounds", nSharedRace*9/10)
+	c.Require("shared_backend_calls_parked_while_others_progressed", scaled(nShared/8))
+	c.Require("shared_batch_mutations_overlapping_a_commit_of_their_handle", scaled(nShared/4))
+	c.Require("shared_commits_overlapping_a_commit_of_their_handle", scaled(nShared/8))
+	for _, st := range []string{"mapdb", "flush", "slow", "slow_flush", "slow_debug", "slow_flush_debug", "slow_debug_flush"} {
+		c.Require("shared_rounds_stack_"+st, nShared/40)
 	}
 	c.Require("bulk_rounds", nBulk*9/10)
 	c.Require("bulk_race_rounds", nBulkRace*9/10)
